@@ -22,30 +22,38 @@ FS_EXC = ['AdbTimeoutError', 'InvalidCommandError', 'InvalidChecksumError', 'str
 SEND_KEPT = 'same({0}.send_buffer, old({0}.send_buffer)) and {0}._maxdata == old({0}._maxdata)'.format(FS)
 
 # ---------------------------------------------------------------------------------------------------------------------
+P0 = 'old(G.spos)[%s]' % LID
+RINV = '{0}.recv_buffer == SB({1}, G.spos[{1}], G.sgot[{1}]) and G.spos[{1}] <= G.sgot[{1}] and isbytearray({0}.recv_buffer)'.format(FS, LID)
+ONLY_OUR_SGOT = 'G.sgot == store(old(G.sgot), {0}, G.sgot[{0}])'.format(LID)
+PENDING = 'old({0}.send_buffer)[:old({0}.send_idx)]'.format(FS)
+
 contract('AdbDevice._filesync_flush',
          real=dev('_filesync_flush'),
          params={'self': 'obj:AdbDevice', 'adb_info': 'obj:AdbInfo', 'filesync_info': 'obj:FSInfo'},
-         props=['C04', 'C07', 'C10', 'C12'],
-         requires=STREAM_OK + FS_INV + [NOLOCK],
-         modifies=IO_MOD + RD_MOD + [FS + '.send_idx', 'G.sync_flushed'],
+         props=['C04', 'C07', 'C10', 'C12', 'C08'],
+         requires=STREAM_OK + FS_INV + [RINV, NOLOCK],
+         modifies=IO_MOD + RD_MOD + [FS + '.send_idx', FS + '.recv_buffer', 'G.sync_flushed'],
          ghost_exit=[('G.sync_flushed', 'store(G.sync_flushed, {0}, G.sync_flushed[{0}] + old({1}.send_buffer)[:old({1}.send_idx)])'.format(LID, FS))],
-         ensures=[('C07', 'flushed-bytes-logged', 'G.sync_flushed == store(old(G.sync_flushed), {0}, old(G.sync_flushed)[{0}] + '
-                                                  'old({1}.send_buffer)[:old({1}.send_idx)])'.format(LID, FS)),
-                  ('C04,C07', 'one-WRTE-with-the-buffered-bytes',
-                   'G.wire == old(G.wire) + frame(WRTE, adb_info.local_id, adb_info.remote_id, old({0}.send_buffer)[:old({0}.send_idx)])'.format(FS)),
+         ensures=[('C07', 'flushed-bytes-logged', 'G.sync_flushed == store(old(G.sync_flushed), {0}, old(G.sync_flushed)[{0}] + {1})'.format(LID, PENDING)),
+                  ('C04,C07', 'one-WRTE-with-the-buffered-bytes-then-one-OKAY-per-device-WRTE-received-meanwhile',
+                   'G.peer_rx == old(G.peer_rx) + frame(WRTE, adb_info.local_id, adb_info.remote_id, {0}) + rep({1}, {2} - 1)'.format(PENDING, OKAYF, K)),
                   ('C07', 'payload-within-maxdata', 'old({0}.send_idx) <= {0}._maxdata'.format(FS)),
-                  ('C04', 'stop-and-wait-OKAY-received-before-returning', 'D_cmd({0}, {1}) == OKAY and G.di == store(old(G.di), {0}, {1} + 1)'.format(LID, DI0)),
+                  ('C04', 'stop-and-wait-OKAY-received-before-returning', 'D_cmd({0}, G.di[{0}] - 1) == OKAY and {1} >= 1'.format(LID, K)),
+                  ('C10,C08', 'data-written-by-the-device-meanwhile-is-kept', RINV + ' and G.spos == old(G.spos)'),
+                  ('C04,C08', 'only-this-stream-advances', ONLY_OUR_STREAM + ' and ' + ONLY_OUR_SGOT),
                   ('C07', 'buffer-emptied', '{0}.send_idx == 0'.format(FS)),
-                  ('C08,C09', 'no-sync-input-consumed', 'G.sgot == old(G.sgot)'),
                   RELEASED, MONO],
          raises=exc_all([RELEASED, MONO]),
          call_asserts={'AdbDevice._read_until': [
              ('C10', 'no-data-bearing-packet-is-dropped-while-waiting-for-the-OKAY', 'WRTE in _arg_expected_cmds')]},
-         doc='sends the buffered sync bytes as one WRTE (<= maxdata) and waits for its OKAY; C10: the wait must not discard WRTEs of the stream')
-
-P0 = 'old(G.spos)[%s]' % LID
-RINV = '{0}.recv_buffer == SB({1}, G.spos[{1}], G.sgot[{1}]) and G.spos[{1}] <= G.sgot[{1}] and isbytearray({0}.recv_buffer)'.format(FS, LID)
-ONLY_OUR_SGOT = 'G.sgot == store(old(G.sgot), {0}, G.sgot[{0}])'.format(LID)
+         loops={0: dict(invariant=[
+             ('C04,C07,C10,C08', '{0}.recv_buffer == SB({1}, G.spos[{1}], G.sgot[{1}]) and isbytearray({0}.recv_buffer) and G.spos[{1}] <= G.sgot[{1}]'.format(FS, LID)),
+             ('C04,C07,C10,C08', 'G.spos == old(G.spos) and %s >= 0 and %s and %s' % (K, ONLY_OUR_STREAM, ONLY_OUR_SGOT)),
+             ('C04,C07', 'G.peer_rx == old(G.peer_rx) + frame(WRTE, adb_info.local_id, adb_info.remote_id, {0}) + rep({1}, {2})'.format(PENDING, OKAYF, K)),
+             ('C04,C07,C10,C12', UNLOCKED), ('C04,C07,C10', MONO + ' and G.rpos >= 0'),
+             ('C04,C07', '{0}.send_idx == old({0}.send_idx)'.format(FS)),
+         ])},
+         doc='sends the buffered sync bytes as one WRTE (<= maxdata) and waits for its OKAY, keeping (and acknowledging) what the device writes meanwhile')
 
 contract('AdbDevice._filesync_read_buffered',
          real=dev('_filesync_read_buffered'),
@@ -59,7 +67,7 @@ contract('AdbDevice._filesync_read_buffered',
                   ('C08,C09', 'cursor-advances-by-size', 'G.spos == store(old(G.spos), {0}, {1} + size)'.format(LID, P0)),
                   ('C08,C09', 'rest-stays-buffered', RINV),
                   ('C08,C09', 'waits-for-no-more-packets-than-needed', '{3} == 0 or G.sgot[{1}] - len(D_data({1}, G.di[{1}] - 1)) - {2} < size'.format(FS, LID, P0, K)),
-                  ('C04', 'one-OKAY-per-WRTE-consumed', 'G.wire == old(G.wire) + rep(%s, %s)' % (OKAYF, K)),
+                  ('C04', 'one-OKAY-per-WRTE-consumed', 'G.peer_rx == old(G.peer_rx) + rep(%s, %s)' % (OKAYF, K)),
                   ('C08,C09,C04', 'only-this-stream-advances', ONLY_OUR_STREAM + ' and ' + ONLY_OUR_SGOT + ' and %s >= 0' % K),
                   RELEASED, MONO],
          raises=exc_all([RELEASED, MONO]),
@@ -68,7 +76,7 @@ contract('AdbDevice._filesync_read_buffered',
              ('C08,C09,C04', 'G.spos == old(G.spos)'),
              ('C08,C09', '{3} == 0 or G.sgot[{1}] - len(D_data({1}, G.di[{1}] - 1)) - {2} < size'.format(FS, LID, P0, K)),
              ('C08,C09,C04', '%s >= 0 and %s and %s' % (K, ONLY_OUR_STREAM, ONLY_OUR_SGOT)),
-             ('C04', 'G.wire == old(G.wire) + rep(%s, %s)' % (OKAYF, K)),
+             ('C04', 'G.peer_rx == old(G.peer_rx) + rep(%s, %s)' % (OKAYF, K)),
              ('C08,C09,C04,C12', UNLOCKED), ('C08,C09,C04', MONO + ' and G.rpos >= 0'),
          ])},
          doc='receive-buffer invariant over arbitrary WRTE boundaries: buffer == sync stream[consumed : received]; returns the next `size` bytes')
@@ -181,7 +189,7 @@ contract('AdbDevice._filesync_send',
                  'size': 'opt[int]'},
          variants=[{'data': 'bytes'}, {'data': 'str'}],
          props=['C07', 'C04', 'C12'],
-         requires=STREAM_OK + FS_INV_S + ['command_id in FILESYNC_ID_TO_WIRE',
+         requires=STREAM_OK + FS_INV_S + [RINV, 'command_id in FILESYNC_ID_TO_WIRE',
                                           ('C07', 'record-fits-the-send-buffer', '8 + len(utf8(data)) <= {0}._maxdata'.format(FS)), NOLOCK],
          modifies=IO_MOD + RD_MOD + FS_MOD + ['G.sync_out', 'G.sync_flushed', 'G.nsync', 'G.pushed'],
          lets=[('PAY', 'utf8(data)'),
@@ -197,13 +205,14 @@ contract('AdbDevice._filesync_send',
                    '{0}.send_buffer[:{0}.send_idx] == ite(FLUSH, b"", {1}) + le32(FILESYNC_ID_TO_WIRE[command_id]) + le32(SZ) + PAY'.format(FS, OLD_PENDING)),
                   ('C07', 'index-after-the-record', '{0}.send_idx == ite(FLUSH, 0, old({0}.send_idx)) + 8 + len(PAY)'.format(FS)),
                   ('C07,C04', 'at-most-one-flush-of-exactly-the-pending-bytes',
-                   'G.wire == old(G.wire) + ite(FLUSH, frame(WRTE, adb_info.local_id, adb_info.remote_id, %s), b"")' % OLD_PENDING),
+                   'G.peer_rx == old(G.peer_rx) + ite(FLUSH, frame(WRTE, adb_info.local_id, adb_info.remote_id, {0}) + rep({1}, {2} - 1), b"")'.format(OLD_PENDING, OKAYF, K)),
                   ('C07', 'sync-stream-log', 'G.sync_out == store(old(G.sync_out), {0}, old(G.sync_out)[{0}] + le32(FILESYNC_ID_TO_WIRE[command_id]) + le32(SZ) + PAY) '
                                              'and G.sync_flushed == store(old(G.sync_flushed), {0}, old(G.sync_flushed)[{0}] + ite(FLUSH, {1}, b""))'.format(LID, OLD_PENDING)),
                   ('C07', 'record-count-and-payload-log', 'G.nsync == store(old(G.nsync), {0}, old(G.nsync)[{0}] + 1) and '
                                                           'G.pushed == store(old(G.pushed), {0}, old(G.pushed)[{0}] + ite(command_id == DATA, PAY, b""))'.format(LID)),
-                  ('C04', 'flush-waits-for-its-OKAY', 'G.di == store(old(G.di), {0}, {1} + ite(FLUSH, 1, 0)) and implies(FLUSH, D_cmd({0}, {1}) == OKAY)'.format(LID, DI0)),
-                  ('C08,C09', 'no-sync-input-consumed', 'G.sgot == old(G.sgot) and same({0}.recv_buffer, old({0}.recv_buffer))'.format(FS)),
+                  ('C04', 'flush-waits-for-its-OKAY', 'implies(not FLUSH, G.di == old(G.di) and G.sgot == old(G.sgot)) and '
+                                                      'implies(FLUSH, D_cmd({0}, G.di[{0}] - 1) == OKAY and {1} >= 1)'.format(LID, K)),
+                  ('C08,C09,C10', 'sync-input-stays-buffered', RINV + ' and G.spos == old(G.spos) and ' + ONLY_OUR_STREAM + ' and ' + ONLY_OUR_SGOT),
                   RELEASED, MONO],
          raises=dict(exc_all([RELEASED, MONO]), **{'struct.error': [RELEASED, MONO]}),
          doc='packs one sync record into the send buffer, flushing first iff it would not fit strictly below maxdata')
@@ -370,6 +379,11 @@ contract('Mem.read', trusted=True,
                   'G.now >= old(G.now)'],
          raises={})
 
+contract('Mem.getbuffer', trusted=True,
+         params={'self': 'opaque:Mem'}, returns='bytes', modifies=[],
+         ensures=['result == G.fin'], raises={},
+         doc='io.BytesIO.getbuffer(): a view of the whole content')
+
 contract('Mem.fileno', trusted=True,
          params={'self': 'opaque:Mem'}, returns='int', modifies=[],
          requires=[], ensures=['False'], raises={'io.UnsupportedOperation': []},
@@ -404,14 +418,15 @@ NS0 = 'old(G.nsync)[%s]' % LID
 PUSH_MOD = IO_MOD + RD_MOD + FS_MOD + ['G.fi', 'G.spos', 'G.sync_out', 'G.sync_flushed', 'G.nsync', 'G.pushed', 'G.fpos', 'G.cb_bytes']
 SENT_ALL = 'G.pushed[{0}] == old(G.pushed)[{0}] + G.fin[old(G.fpos):]'.format(LID)
 PUSH_PRE = STREAM_OK + FS_INV_S + [RINV, D_MAXDATA, D_PATH, '{0}._maxdata == self._maxdata'.format(FS), '{0}.send_idx == 0'.format(FS),
-                                   'st_mode >= 0 and st_mode < 2**32', 'mtime >= 0 and mtime < 2**32', 'G.now >= 0 and G.now < 2**32 - 1',
+                                   'st_mode >= 0 and st_mode < 2**32', 'mtime >= 0 and mtime < 2**32',
                                    'G.fpos >= 0 and G.fpos <= len(G.fin)', 'G.sync_flushed[{0}] == G.sync_out[{0}]'.format(LID), NOLOCK]
 
 contract('AdbDevice._push',
          real=dev('_push'),
          params={'self': 'obj:AdbDevice', 'stream': 'opaque:FileR', 'device_path': 'str', 'st_mode': 'int', 'mtime': 'int',
                  'progress_callback': 'opt[opaque:ProgressCallback]', 'adb_info': 'obj:AdbInfo', 'filesync_info': 'obj:FSInfo'},
-         variants=[dict(FSREAD_VARIANTS[0], stream='opaque:FileR'), dict(FSREAD_VARIANTS[0], stream='opaque:Mem')],
+         variants=[dict(FSREAD_VARIANTS[0], stream='opaque:FileR'), dict(FSREAD_VARIANTS[0], stream='opaque:Mem', __twin__='sync'),
+                   dict(FSREAD_VARIANTS[0], stream='obj:_BytesIO', __twin__='async')],
          locals={'total_bytes': 'int'},
          props=['C07', 'C10', 'C04', 'C12'],
          escape_props=['C07'],
@@ -457,3 +472,58 @@ contract('AdbDevice._push',
                                 ('C07,C04', FS_INV_S[0] + ' and ' + FS_INV_S[1]), ('C07,C04', RINV), ('C07,C10', 'G.fi[{0}] >= {1}'.format(LID, F1)),
                                 ('C07,C04,C12', UNLOCKED), ('C07,C04', MONO + ' and G.rpos >= 0')])},
          doc='SEND path,mode; DATA chunks of at most max_chunk_size bytes; DONE mtime; then the status record: OKAY -> return, FAIL -> PushFailedError')
+
+
+# ---------------------------------------------------------------------------------------------------------------------
+# get_files_to_push, push  (C07)
+
+contract('hidden_helpers.get_files_to_push',
+         real='hidden_helpers:get_files_to_push',
+         params={'local_path': 'str', 'device_path': 'str'},
+         variants=[{'local_path': 'str'}, {'local_path': 'opaque:Mem'}],
+         returns=lambda ex, bound: ('tuple[bool,list[str],list[str]]' if bound['local_path'].kind == 'str' else 'tuple[bool,list[opaque:Mem],list[str]]'),
+         props=['C07'],
+         modifies=[],
+         ensures=[('C07', 'a-directory-iff-a-path-that-is-a-directory', 'result[0] == (isstr(local_path) and isdir(local_path))'),
+                  ('C07', 'single-source-is-pushed-as-is',
+                   'implies(not result[0], len(result[1]) == 1 and len(result[2]) == 1 and same(result[1][0], local_path) and same(result[2][0], device_path))'),
+                  ('C07', 'one-pair-per-directory-entry', 'implies(result[0], len(result[1]) == listdir_len(local_path) and len(result[2]) == listdir_len(local_path))'),
+                  ('C07', 'each-file-is-read-from-that-directory-whatever-the-working-directory',
+                   'implies(result[0], forall_int("j", "implies(0 <= j and j < len(result[1]), result[1][j] == pathjoin(local_path, listdir_at(local_path, j)))"))'),
+                  ('C07', 'and-sent-to-device_path/name',
+                   'implies(result[0], forall_int("j", "implies(0 <= j and j < len(result[2]), result[2][j] == device_path + SLASH + listdir_at(local_path, j))"))')],
+         raises={'OSError': []},
+         doc='directory expansion: local path = join(directory, entry), device path = device_path/entry')
+
+PUSH_TOP_MOD = FS_OP_MOD + ['G.fpos', 'G.fin', 'G.cb_bytes', 'G.files_opened']
+D_NAMES = ('forall_int("j", "implies(0 <= j and j < listdir_len(local_path), '
+           'len(utf8(device_path)) + 1 + len(utf8(listdir_at(local_path, j))) <= 1024)")')
+
+contract('AdbDevice.push',
+         real=dev('push'),
+         params={'self': 'obj:AdbDevice', 'local_path': 'str', 'device_path': 'str', 'st_mode': 'int', 'mtime': 'int',
+                 'progress_callback': 'opt[opaque:ProgressCallback]', 'transport_timeout_s': 'opt[real]', 'read_timeout_s': 'real'},
+         variants=[{'local_path': 'str'}, {'local_path': 'opaque:Mem'}],
+         props=['C07', 'C10', 'C13', 'C12'],
+         requires=OP_REQ + [D_MAXDATA, D_PATH, 'st_mode >= 0 and st_mode < 2**32', 'mtime >= 0 and mtime < 2**32',
+                            'G.fpos >= 0 and G.fpos <= len(G.fin)', 'implies(isstr(local_path), %s)' % D_NAMES],
+         modifies=PUSH_TOP_MOD,
+         ensures=[AVAIL, ('C13', 'path-not-empty', 'len(utf8(device_path)) > 0'), RELEASED, MONO],
+         raises=op_raises(FS_FAIL + [('OSError', [RELEASED, ('C13', 'was-available', 'old(self._available)')]),
+                                     ('PushFailedError', [RELEASED, MONO, ('C13', 'was-available', 'old(self._available)')])]),
+         call_asserts={
+             'AdbDevice._push': [
+                 ('C07', 'each-file-once-in-order-to-its-device-path-with-the-given-mode-mtime-callback',
+                  'same(_arg_device_path, device_paths[_i]) and _arg_st_mode == st_mode and _arg_mtime == mtime and same(_arg_progress_callback, progress_callback)'),
+                 ('C07', 'on-a-fresh-sync-stream-with-the-negotiated-maxdata',
+                  '_arg_filesync_info._maxdata == self._maxdata and _arg_filesync_info.send_idx == 0 and val(_arg_adb_info.local_id) == self._local_id'),
+                 ('C07', 'reads-a-path-source-from-its-beginning', 'implies(isstr(local_path), G.fpos == 0)')],
+             'AdbDevice.shell': [('C07', 'mkdir-only-for-a-directory', 'local_path_is_dir and same(_arg_command, asstr(b"mkdir ") + device_path)')],
+         },
+         loops={0: dict(invariant=[
+             ('C07,C13,C12', 'old(self._available) and len(utf8(device_path)) > 0'),
+             ('C07', 'self._local_id >= 0 and self._local_id < 2**32 and self._maxdata == old(self._maxdata)'),
+             ('C07', 'G.fpos >= 0 and G.fpos <= len(G.fin)'),
+             ('C07,C12', UNLOCKED), ('C07', MONO + ' and G.rpos >= 0'),
+         ])},
+         doc='get_files_to_push, mkdir for a directory, then per pair: open source rb, new sync stream, _push, host CLSE')
